@@ -393,7 +393,7 @@ def run(ctx):
                 "a case = one sequence; distinct = distinct op sequences; non-trivial = at least 10 ops")
     ctx.proof_phase(MODULE, THEOREMS)
     drv = ctx.driver("Drivers.C34")
-    nseq = ctx.budget(600, 20000)
+    nseq = ctx.budget(2000, 50000)
     length = ctx.budget(40, 100)
     rng = ctx.sub_rng("ops")
     seqs = [gen_ops(rng, rng.randrange(10, length + 1)) for _ in range(nseq)]
@@ -402,15 +402,26 @@ def run(ctx):
         seqs = [json.load(open(ctx.replay_in))["replay"]["ops"]]
     first_bad = None
     first_diff = None
+    impls = []
     for ops in seqs:
         impl, bad = run_impl(ops)
+        impls.append(impl)
         ctx.case(" ".join(ops), nontrivial=len(ops) >= 10)
         for o in ops:
             ctx.count(" ".join(o.split()[0:1] + o.split()[2:3]))
         if bad and first_bad is None:
             first_bad = (ops, bad)
-        if drv is not None:
-            model = drv.run(ops)
+    if drv is not None:
+        # one driver process for all sequences; `reset` clears the model state between two sequences
+        lines = []
+        for ops in seqs:
+            lines.append("reset")
+            lines.extend(ops)
+        out = drv.run(lines)
+        pos = 0
+        for ops, impl in zip(seqs, impls):
+            model = out[pos + 1:pos + 1 + len(ops)]
+            pos += 1 + len(ops)
             if model != impl and first_diff is None:
                 k = next(i for i in range(len(ops)) if model[i] != impl[i])
                 first_diff = (ops, k, model[k], impl[k])
